@@ -71,9 +71,14 @@ NOT_APPLICABLE = {
     'C15': 'segmentation is the cansi crate, escaping/rendering the roff crate (opaque Roff type); the repository-own logic is five finite leaf functions that do not decide the statement (DESIGN.md section 6)',
 }
 
-REND_QUICK = ['render_write_code_all', 'render_buffer_capacity', 'render_color_display', 'render_color_io', 'render_color_entry_points',
-              'render_effects_all', 'render_reset_forms', 'render_style_roundtrip', 'render_flags_width_right', 'render_flags_alt_width']
-REND_ALL = REND_QUICK + ['render_flags_fill_center', 'render_flags_precision', 'render_flags_zero', 'render_flags_alt_precision', 'render_flags_alt_fill']
+REND_CORE = ['render_write_code_all', 'render_buffer_ansi', 'render_buffer_ansi256', 'render_buffer_rgb_fg', 'render_buffer_rgb_bg',
+             'render_buffer_rgb_underline', 'render_color_write_paths', 'render_effect_escapes', 'render_effects_concat',
+             'render_style_concat', 'render_reset_io']
+REND_FMT = ['render_display_eq_s0', 'render_display_eq_s1', 'render_display_eq_s2', 'render_display_eq_s3', 'render_display_eq_s4',
+            'render_flags_width_right', 'render_flags_fill_center', 'render_flags_precision', 'render_flags_alt_width',
+            'render_flags_alt_precision', 'render_flags_alt_fill_plain', 'render_reset_value']
+REND_QUICK = REND_CORE + ['render_display_eq_s2', 'render_flags_width_right', 'render_flags_alt_width', 'render_reset_value']
+REND_ALL = REND_CORE + REND_FMT
 PROPS['C05'] = {
     'level': 'proof',
     'functions': ['anstyle::color::DisplayBuffer::{write_str,write_code,as_str,write_to}', 'AnsiColor/Ansi256Color/RgbColor::{as_fg_buffer,as_bg_buffer,as_underline_buffer,render_fg,render_bg}',
@@ -83,7 +88,8 @@ PROPS['C05'] = {
     'thorough': {'kani': [{'crate': 'anstyle', 'harnesses': REND_ALL, 'timeout': 3000, 'mem_gb': 12}]},
     'assumptions': ['core::fmt machinery (format_args!, Formatter::write_str/pad, fmt::write) as compiled by Kani',
                     'S4 (spec/sgr.rs) is the reference SGR interpreter; underline kinds are independent bits (the only reading under which all 4096 effect sets can round-trip)'],
-    'explanation': 'Symbolic style over the full domain (16+256+2^24 colours per slot x 4096 effect sets) rendered through both paths into a fixed buffer and interpreted by the S4 oracle; loop bounds are the buffer sizes (complete).',
+    'explanation': 'Compositional: every colour buffer and every effect escape interprets (S4) to exactly its colour/effect (complete over all values); Style::write_to is the in-order concatenation of those parts for every style (symbolic, complete); Display paths and format flags are compared byte-for-byte on five concrete styles (bounded).',
+    'bounded': {h: 'core::fmt path on a concrete sample style (symbolic styles through core::fmt do not finish in CBMC)' for h in REND_FMT},
 }
 
 STRIP_LEAVES = ['strip_leaf_predicates', 'strip_utf8_add_eq_s5', 'strip_s5_bounded_depth']
@@ -102,4 +108,62 @@ PROPS['C01'] = {
     'assumptions': ['std Iterator::position / iter().copied() semantics (rule E8a desugaring), cross-checked by the bounded Kani twins on the un-desugared functions',
                     'utf8parse crate: behaviour of Parser::advance as compiled by Kani (trace-equivalence with S5 is proved, complete)'],
     'explanation': 'Verus proves for inputs of any length and any carried state that one call of next_bytes/next_str returns exactly the next maximal run of model-visible bytes as a sub-slice, leaves the rest, and carries the model state; leaves (table, predicates, UTF-8 accumulator) are discharged completely by Kani.',
+}
+
+VT_TABLE['harnesses'] = ['vt_table_state_change_eq_spec', 'vt_table_unpack_total', 'vt_table_try_from']
+PARSE_LEAVES = {'crate': 'anstyle-parse', 'harnesses': ['vt_table_state_change_eq_spec', 'vt_table_unpack_total', 'vt_table_try_from', 'parse_osc_dispatch_slices'],
+                'timeout': 900, 'flags': ['-Z', 'valid-value-checks']}
+PROPS['C02'] = {
+    'level': 'proof',
+    'functions': ['anstyle_parse::Parser::{advance,process_utf8,perform_state_change,perform_action,osc_dispatch,params,intermediates}',
+                  'anstyle_parse::Params::{len,is_empty,is_full,clear,push,extend}', 'anstyle_parse::ParamsIter::{new,next}',
+                  'anstyle_parse::state::{state_change,state_change_,unpack}', 'TryFrom<u8> for State/Action'],
+    'quick': {'verus': ['parse_core'], 'kani': [PARSE_LEAVES]},
+    'thorough': {'verus': ['parse_core'], 'kani': [PARSE_LEAVES]},
+    'bounded': {'parse_osc_dispatch_slices': 'unsafe leaf osc_dispatch: all parameter counts 0..=16 and all bounds tables, payload <= 6 bytes'},
+    'assumptions': ['Perform is caller code: each callback is specified to append exactly one event to a ghost log (rule E6)',
+                    'CharAccumulator is specified as a deterministic step function (rule E6); for Utf8Parser see C01 strip_utf8_add_eq_s5 / utf8parse crate',
+                    'L-stream (a driver loop over advance yields model_run) and L-cancel (after CAN/SUB the model behaves as from a fresh state) are consequences of the one-step refinement argued in DESIGN.md, not mechanised'],
+    'explanation': 'Verus proves that one call of the real Parser::advance refines one step of the S2 model (Williams parser + documented limits) for every well-formed parser state and every byte: same events in the same order with the same arguments, representation invariants of Params/OSC bookkeeping preserved; the 16x256 table equals S1 and the unsafe leaves are discharged by Kani.',
+}
+PROPS['C03'] = {
+    'level': 'proof',
+    'functions': ['anstream::adapter::strip::{next_bytes,next_str}', 'anstream::strip::{write,write_all}'],
+    'quick': {'verus': ['strip_scan', 'strip_fold'], 'kani': [
+        {'crate': 'anstream', 'harnesses': STRIP_LEAVES, 'timeout': 900}]},
+    'thorough': {'verus': ['strip_scan', 'strip_fold'], 'kani': [
+        {'crate': 'anstream', 'harnesses': STRIP_LEAVES + ['strip_next_bytes_onecall_n3', 'strip_next_str_onecall_n3'], 'timeout': 3000}]},
+    'bounded': {'strip_next_bytes_onecall_n3': 'twin, inputs <= 3 bytes', 'strip_next_str_onecall_n3': 'twin, inputs <= 3 bytes'},
+    'assumptions': ['styled-run extractor (WinconBytes::extract_next) chunking is covered through the parser one-step refinement (C02) and C07; no separate obligation here',
+                    'std Iterator::position semantics (rule E8a)'],
+    'explanation': 'The one-call scan contracts are stated for an arbitrary carried state and pin the carried state after the call to the model state at the cut; the spec-level fold lemmas (unit strip_fold) then give visible(a ++ b) == visible(a) ++ visible-from-carried-state(b) for every cut, including cuts inside escape sequences and (byte API) inside characters.',
+}
+PROPS['C04'] = {
+    'level': 'proof',
+    'functions': ['every function of units parse_core, strip_scan, lossy (Verus checks overflow, bounds, unwrap on all of them)', 'anstyle_parse::state::unpack (transmute)',
+                  'anstyle_parse::Parser::osc_dispatch (MaybeUninit)', 'anstream::adapter::strip::from_utf8_unchecked via next_str', 'anstyle::color::DisplayBuffer'],
+    'quick': {'verus': ['parse_core', 'strip_scan', 'lossy'], 'kani': [PARSE_LEAVES,
+        {'crate': 'anstream', 'harnesses': ['strip_next_str_onecall_n3'], 'timeout': 900},
+        {'crate': 'anstyle', 'harnesses': ['render_write_code_all', 'render_buffer_rgb_fg'], 'timeout': 900}]},
+    'thorough': {'verus': ['parse_core', 'strip_scan', 'lossy'], 'kani': [PARSE_LEAVES,
+        {'crate': 'anstream', 'harnesses': ['strip_next_str_onecall_n4', 'strip_next_bytes_onecall_n5'], 'timeout': 3000},
+        {'crate': 'anstyle', 'harnesses': ['render_write_code_all', 'render_buffer_ansi', 'render_buffer_ansi256', 'render_buffer_rgb_fg', 'render_buffer_rgb_bg', 'render_buffer_rgb_underline'], 'timeout': 1800}]},
+    'bounded': {'strip_next_str_onecall_n3': 'valid-UTF-8 piece obligation of from_utf8_unchecked: all valid UTF-8 inputs <= 3 bytes (4 in thorough)',
+                'parse_osc_dispatch_slices': 'payload <= 6 bytes'},
+    'assumptions': ['NOT covered: anstyle-svg and anstyle-roff converters, anstyle_ls::parse tokeniser, anstyle_git::parse (string/alloc code outside both tools, see C11/C12/C14/C15)',
+                    'valid-UTF-8-ness of text pieces is proved structurally in Verus (pieces start and end on non-continuation bytes) and bounded-checked with from_utf8 by Kani'],
+    'explanation': 'Safety side-conditions of the verified units: Verus discharges no-overflow / in-bounds / unwrap obligations for every extracted function for all inputs; Kani checks the unsafe leaves (transmute for all 256 values, MaybeUninit slices, from_utf8_unchecked) and the 19-byte display buffer.',
+}
+C06_QUICK = ['stream_write_plumbing_interrupted', 'stream_write_plumbing_wouldblock', 'stream_write_plumbing_other', 'stream_write_all_plumbing', 'stream_methods_forward']
+PROPS['C06'] = {
+    'level': 'proof',
+    'functions': ['anstream::strip::{write,write_all,write_fmt,offset_to}', 'impl Write for StripStream (write, write_vectored, flush, write_all, write_fmt)', 'anstream::fmt::Adapter (thorough)'],
+    'quick': {'verus': ['strip_scan', 'strip_fold'], 'kani': [
+        {'crate': 'anstream', 'harnesses': C06_QUICK, 'timeout': 1500, 'flags': ['-Z', 'stubbing'], 'mem_gb': 12}]},
+    'thorough': {'verus': ['strip_scan', 'strip_fold'], 'kani': [
+        {'crate': 'anstream', 'harnesses': C06_QUICK, 'timeout': 3000, 'flags': ['-Z', 'stubbing'], 'mem_gb': 12}]},
+    'assumptions': ['modular: next_bytes is replaced by a recording stand-in returning an arbitrary answer of the shape its verified contract guarantees (verus:strip_scan::next_bytes); buffers up to 4 bytes (write never inspects byte values)',
+                    'fmt::Adapter / write_fmt: CBMC does not finish on core::fmt::write (measured > 50 min); its error-saving logic is covered only by reading: listed as unverified',
+                    'the inner writer honours the Write contract (returns n <= buf.len())'],
+    'explanation': 'Kani verifies write/write_all against the scanner contract for every carried state, every scanner answer and every inner-writer outcome (accept any prefix, fail with Interrupted/WouldBlock/Other): exactly one inner write per call, the reported count ends at the last accepted visible byte, the state is replayed over exactly the consumed prefix from the entry state, errors surface with their kind and leave state and delivery untouched. Verus (strip_scan + strip_fold) supplies what the routed pieces and states mean.',
 }
